@@ -107,8 +107,12 @@ PROPS = {
                     "operand is dynamic -- so a well-typed sub-expression never makes its parent rejected.  METHOD ARGUMENTS: with the right argument "
                     "count, a method call on a statically typed receiver is rejected for its argument types exactly when an argument has a concrete "
                     "static type different from the documented one (member_arg_rule, expect_member_string_arg, expect_member_number_arg).  CONDITIONS AND INDEXES: check_boolean_expr rejects exactly the conditions "
-                    "whose static type can never be boolean/null, the Expr::Index arm exactly the receivers that can never be an array and indexes that can never be a number."),
-        "not_covered": ("undeclared-name, call-arity, duplicate-function/parameter and reserved-name rules, which methods exist for which "
+                    "whose static type can never be boolean/null, the Expr::Index arm exactly the receivers that can never be an array and indexes that can never be a number.  "
+                    "CALLS: `name(args)` on a built-in name is rejected with FunctionCallArity iff the count differs from the built-in's arity (and "
+                    "`command` with TypeMismatch iff its argument is statically a non-string), on a user function in scope iff the count differs "
+                    "from its parameter count, and with UndeclaredIdentifier iff the name is neither (call_rule: each error in its own category)."),
+        "not_covered": ("undeclared-variable, duplicate-function/parameter and reserved-name rules (loops over HashSet / closures), function "
+                        "lookup itself (lookup_func is a parameter of call_rule; its innermost-scope rule is a Kani obligation under C04), which methods exist for which "
                         "receiver type and their argument count, "
                         "type tracking across re-declarations, and the recursion of check_expr over sub-expressions (cut at the arm boundary)."),
         "trusted_base": [KANI_TRUST, OS_TRUST, "predeclare_block_functions used through a registration-only contract stub in the check_function_body harness (its HashSet code is outside CBMC's reach)"],
